@@ -12,6 +12,7 @@ import (
 	"strings"
 	"sync"
 	"time"
+	"unicode/utf8"
 
 	dto "github.com/prometheus/client_model/go"
 	"github.com/relex/gotils/channels"
@@ -94,15 +95,60 @@ func (env *c07Env) fail(sig, desc string) {
 
 // c07Ser records the stream of the record being processed
 type c07Ser struct {
-	inner base.LogSerializer
-	env   *c07Env
-	p     *c07PipeObs
-	k     int
+	inner   base.LogSerializer
+	env     *c07Env
+	p       *c07PipeObs
+	k       int
+	datadog bool
+}
+
+// c07DatadogCanon: the decoded JSON object as key 0x00 value 0x01 ... sorted by key; "skip" when a value that goes
+// into the object is not valid UTF-8 (json.Marshal replaces such bytes, the comparison would be meaningless)
+func c07DatadogCanon(stream []byte, r *base.LogRecord, schema, hidden []string, tag string) []byte {
+	hasTags := false
+	for i, name := range schema {
+		isHidden := name == ""
+		for _, h := range hidden {
+			if h == name {
+				isHidden = true
+			}
+		}
+		if isHidden || i >= len(r.Fields) || r.Fields[i] == "" {
+			continue
+		}
+		if !utf8.ValidString(r.Fields[i]) {
+			return []byte("skip")
+		}
+		if name == "ddtags" {
+			hasTags = true
+		}
+	}
+	if !hasTags && tag != "" && !utf8.ValidString(tag) {
+		return []byte("skip")
+	}
+	var m map[string]string
+	if err := json.Unmarshal(stream, &m); err != nil {
+		return []byte("notjson:" + err.Error())
+	}
+	keys := make([]string, 0, len(m))
+	for k := range m {
+		keys = append(keys, k)
+	}
+	sort.Strings(keys)
+	var out []byte
+	for _, k := range keys {
+		out = append(append(append(append(out, k...), 0), m[k]...), 1)
+	}
+	return out
 }
 
 func (s *c07Ser) SerializeRecord(r *base.LogRecord) base.LogStream {
 	stream := s.inner.SerializeRecord(r)
 	cp := append([]byte(nil), stream...)
+	shown := cp
+	if s.datadog {
+		shown = c07DatadogCanon(cp, r, s.env.cf.Schema, s.env.cf.Outs[s.k].Hidden, s.p.tag)
+	}
 	s.env.mu.Lock()
 	if o := s.p.inFlight; o != nil {
 		o.class = 'P'
@@ -111,7 +157,7 @@ func (s *c07Ser) SerializeRecord(r *base.LogRecord) base.LogStream {
 			o.streams = append(o.streams, nil)
 			o.chunkSize = append(o.chunkSize, 0)
 		}
-		o.streams[s.k] = cp
+		o.streams[s.k] = shown
 	}
 	s.p.pending[s.k] = append(s.p.pending[s.k], cp)
 	s.env.mu.Unlock()
@@ -135,7 +181,13 @@ func c07SplitEvents(payload []byte) ([][]byte, error) {
 
 // acceptChunk is the oracle on chunks: the chunk decodes and holds exactly the streams written since the last one
 func (env *c07Env) acceptChunk(p *c07PipeObs, k int, chunk base.LogChunk, final bool) int {
-	d := c11DecodeForward(chunk.Data)
+	isDatadog := env.cf.Outs[k].Mode == 3
+	var d c11Decoded
+	if isDatadog {
+		d = c11DecodeDatadog(chunk.Data)
+	} else {
+		d = c11DecodeForward(chunk.Data)
+	}
 	env.mu.Lock()
 	want := p.pending[k]
 	p.pending[k] = nil
@@ -148,6 +200,25 @@ func (env *c07Env) acceptChunk(p *c07PipeObs, k int, chunk base.LogChunk, final 
 	where := fmt.Sprintf("pipeline %d (%q) output %d chunk %s", p.idx, p.id, k, chunk.ID)
 	if d.err != "" {
 		env.fail("c07:chunk-undecodable", where+": "+d.err)
+		return len(want)
+	}
+	if isDatadog {
+		// the body is a JSON array of exactly the serialized records
+		var items []json.RawMessage
+		if err := json.Unmarshal(d.payload, &items); err != nil {
+			env.fail("c07:chunk-undecodable", fmt.Sprintf("%s: the body is not a JSON array: %v", where, err))
+			return len(want)
+		}
+		if len(items) != len(want) {
+			env.fail("c07:chunk-records", fmt.Sprintf("%s holds %d items, %d records were written to it", where, len(items), len(want)))
+			return len(want)
+		}
+		for i := range items {
+			if !bytes.Equal(bytes.TrimSpace(items[i]), want[i]) {
+				env.fail("c07:chunk-records", fmt.Sprintf("%s: item %d differs from the serialized record", where, i))
+				break
+			}
+		}
 		return len(want)
 	}
 	evs, err := c07SplitEvents(d.payload)
@@ -251,7 +322,7 @@ func c07Build(cf *c07Conf) (*c07Pipeline, string) {
 			k := k
 			names[k] = pair.Name
 			outs[k] = bsupport.OutputInterface{
-				LogSerializer: &c07Ser{inner: pair.OutputConfig.Value.NewSerializer(parentLogger, args.Schema, outputTag), env: env, p: po, k: k},
+				LogSerializer: &c07Ser{inner: pair.OutputConfig.Value.NewSerializer(parentLogger, args.Schema, outputTag), env: env, p: po, k: k, datadog: cf.Outs[k].Mode == 3},
 				LogChunkMaker: pair.OutputConfig.Value.NewChunkMaker(parentLogger, outputTag),
 				Name:          pair.Name,
 				AcceptChunk: func(chunk base.LogChunk) {
